@@ -50,11 +50,17 @@ def run(ctx):
     ctx.assumptions = ['value-level agreement is decided for the x86-64 and AArch64 assembly; the portable C++ multiply/reduce and the ARMv6-M assembly are not decided at value level',
                        'ARMv6-M assembly bodies are not analysable in this image (only their C++ side is checked)']
     cfgs = ctx.configs()
+    ctx.add_extra_unit(os.path.join(bm.VERIF, 'fixtures', 'instantiate_all.cpp'))
     progs = ctx.programs(cfgs)
     pairs = [('x64-asm', 'x64-port'), ('m0-asm', 'm0-port'), ('a64-asm', 'x64-port')]
     pairs = [p for p in pairs if p[0] in cfgs and p[1] in cfgs]
     from .. import asmsem
+    from .. import cppword
+    from .. import nowrap
     for c in cfgs:
+        nowrap.rule_nowrap(ctx, c, progs[c])
+        wc = cppword.rule_wordalg_cpp(ctx, c, progs[c])
+        ctx.floor('R-WORDALG/c++ routine x aliasing instances[%s]' % c, wc, 35)
         wa = asmsem.rule_wordalg(ctx, c, os.path.join(ctx.outdir, 'asm'))
         if c == 'x64-asm':
             ctx.floor('R-WORDALG routine x aliasing instances[%s]' % c, wa, 25)
